@@ -28,6 +28,7 @@ type Obligation struct {
 type Item struct {
 	Text string
 	Ob   *Obligation
+	Cut  bool // an assumption of a fact that was just proved (cut): never hoisted above its own obligation
 }
 
 type ParamDecl struct {
@@ -197,6 +198,15 @@ func (f *fctx) assume(t Term) {
 		return
 	}
 	f.sc.emit("(assert %s)", Implies(f.curReach, t).S)
+}
+
+// assumeCut: assume a fact whose obligation has just been generated (cut rule).  In batched rendering the pending
+// obligations are discharged before this assumption is made, so that it cannot be used to prove itself.
+func (f *fctx) assumeCut(t Term) {
+	if t.S == "true" {
+		return
+	}
+	f.sc.Items = append(f.sc.Items, Item{Text: fmt.Sprintf("(assert %s)", Implies(f.curReach, t).S), Cut: true})
 }
 
 func (f *fctx) oblige(kind, name string, goal Term, pos token.Pos, desc string) {
@@ -1265,7 +1275,7 @@ func (f *fctx) unrollLoop(h *ssa.BasicBlock, ord int, n int) {
 					tag = fmt.Sprint(ci)
 				}
 				f.oblige("I1", fmt.Sprintf("I/loop%d.inv%s@iter%d", ord, tag, k), wantBoolE(t), h.Instrs[0].Pos(), c.Text)
-				f.assume(t)
+				f.assumeCut(t)
 			}
 		}
 		f.finishBlock(h)
